@@ -366,6 +366,12 @@ def agree(case, out, res):
     for i, (ms, st) in enumerate(zip(mstates, res['states'])):
         if ms == 'err unspec':
             return None
+        if case['ops'][i][0] == 'apply' and i > 0 and 'obs' in res['states'][i - 1]:
+            # a reduction along a dimension that an earlier step left empty: numpy.ma gives a masked or an unmasked zero
+            # depending on whether the (empty) mask array was ever materialised - not specified, not compared further
+            prev = pfile.parse_obs(res['states'][i - 1]['obs'])['dims']
+            if any(prev.get(n, (1,))[0] == 0 for n, fn in case['ops'][i][1]):
+                return None
         if 'err' in st:
             if ms.startswith('err'):
                 return None
